@@ -1,10 +1,27 @@
-"""C20 — generated wiring; generators come from tools/gens/*.py (gen_C20) of the units in tools/units.py."""
+"""C20 — valid inputs never panic or vary with build profile; misuse fails loudly.
+The workloads of C01–C15 plus the units' gen_C20 (hook-preset counters next to 2^32-1 / 2^64-1, invalid argument
+matrix) are run through three harness builds: debug (overflow checks + debug assertions), release with overflow
+checks and debug assertions, plain release. All must give identical bytes and identical panic / no-panic verdicts,
+equal to what the Lean model answers (PANIC exactly where the API documents a refusal)."""
 from props import _auto
 
 LEAN_MODULES = _auto.lean_modules("C20")
-VARIANTS = ['default', 'relchk', 'release']
-RULE = 'C01-C15 workloads + hook-preset counters through debug / release+checks / release builds; invalid-argument matrix (each length one below/above, zero, huge); non-trivial = any; distinct = distinct case lines'
-TRUSTED = ["hand-written Lean models (lean/CxVerif/Impl, Spec) tied to the code by the correspondence run and by tables re-extracted from /repo/src"]
-ASSUMPTIONS = []
-gen = _auto.make_gen("C20")
+VARIANTS = ["default", "relchk", "release"]
+RULE = ("unit generators gen_C20 (counters preset next to 2^32-1 and 2^64-1 through hooks, invalid argument shapes per entry point: each "
+        "length one below / one above the legal values, zero, very large) plus a deterministic sample of the C01..C15 workloads, all run "
+        "through debug / release+checks / plain release builds; non-trivial = any; distinct = distinct case lines")
+TRUSTED = ["hand-written Lean models tied to the code by the correspondence run",
+           "memory safety of unsafe pointer code and the profile switch itself are observed on the real binaries, not proved"]
+ASSUMPTIONS = ["Argon2 parameter ranges the crate documents as unchecked are outside the claim"]
 nontrivial = _auto.default_nontrivial
+REUSE = {"C01": 8, "C02": 60, "C03": 4, "C04": 4, "C05": 10, "C06": 10, "C07": 10, "C08": 8, "C09": 20, "C10": 8, "C11": 4,
+         "C12": 8, "C13": 6, "C14": 8, "C15": 30}
+
+
+def gen(tier, rng):
+    yield from _auto.make_gen("C20")(tier, rng)
+    for prop, stride in REUSE.items():
+        k = stride if tier == "quick" else max(1, stride // 3)
+        for i, (line, kind) in enumerate(_auto.make_gen(prop)("quick", rng)):
+            if i % k == 0:
+                yield (line, f"{prop}/{kind}")
